@@ -1,3 +1,71 @@
+import BU.Py
+import BU.Gen.Tables
+import BU.Spec.Ecdsa
+import BU.Spec.CurveLaws
 import BU.Model.Msg
+/-!
+# C14 — signed messages: sign, verify and key recovery agree and interoperate
+
+M: `Model.addMagicPrefix`, `msgDigest`, `verifyMessage`, `signMessageHeader`, `recoverPub`.  python-ecdsa's raw
+(r, s) for the digest is an input (`rs`); its `verify_digest` is `Spec.ecdsaVerify`; sympy `sqrt_mod` = all roots.
+-/
 namespace C14
+open Py Spec Model Secp
+
+/-- Bitcoin Core's message magic -/
+def coreMagic : Bytes := [0x18] ++ "Bitcoin Signed Message:\n".toUTF8.toList
+
+/-- **T-tie**: the magic prefix in the working tree is Bitcoin Core's -/
+theorem magic_tie : Gen.MAGIC_PREFIX = coreMagic := by
+  sorry
+
+/-- the digest signed is the standard one: double-SHA256 of the magic prefix, the CompactSize of the message's
+UTF-8 **byte** length and the message (for every message, any length, any characters) -/
+theorem digest_eq_core (sha256 : Bytes → Bytes) (msgUtf8 : Bytes) :
+    msgDigest sha256 Gen.MAGIC_PREFIX msgUtf8 =
+      sha256 (sha256 (coreMagic ++ compactSize msgUtf8.length ++ msgUtf8)) := by
+  sorry
+
+/-- verification never reports success for another message, another address or an altered signature unless that
+triple itself is ECDSA-valid: success implies a 65-byte signature with header 27..35 whose (r, s) verify, for this
+message's digest, under a key whose P2PKH address (compression as the header says) is exactly the given address -/
+theorem verify_true_implies (sha256 : Bytes → Bytes) (magic : Bytes) (addrOf : Nat × Nat → Bool → String)
+    (address : String) (sig msg : Bytes) (h : verifyMessage sha256 magic addrOf address sig msg = .ok true) :
+    sig.length = 65 ∧ 27 ≤ (sig.getD 0 0).toNat ∧ (sig.getD 0 0).toNat ≤ 35 ∧
+    ∃ q : Nat × Nat,
+      ecdsaVerify (some q) (ofBE (msgDigest sha256 magic msg)) (ofBE ((sig.drop 1).take 32)) (ofBE ((sig.drop 33).take 32)) = true ∧
+      addrOf q (decide ((sig.getD 0 0).toNat ≥ 31)) = address := by
+  sorry
+
+/-- headers outside 27..35 are never accepted; a signature that is not 65 bytes raises -/
+theorem verify_header_window (sha256 : Bytes → Bytes) (magic : Bytes) (addrOf : Nat × Nat → Bool → String)
+    (address : String) (sig msg : Bytes) :
+    (sig.length ≠ 65 → ∃ e, verifyMessage sha256 magic addrOf address sig msg = .error e) ∧
+    (sig.length = 65 → ((sig.getD 0 0).toNat < 27 ∨ (sig.getD 0 0).toNat > 35) →
+      verifyMessage sha256 magic addrOf address sig msg = .ok false) := by
+  sorry
+
+/-- the ECDSA signature (r, s) that a signer with secret `d` and nonce `k` produces for digest value `z` -/
+def ecdsaSigOf (d k z : Nat) (xr : Nat) : Nat × Nat := (xr % n, invN k * ((z % n + (xr % n) * d) % n) % n)
+
+/-- **sign then verify** (under the group laws): for every key, message and nonce — in the overwhelmingly common
+case x(R) < n, r, s ≠ 0 — the header search returns the compact signature whose header encodes R's y parity
+(27/28, or 31/32 when compressed), that signature verifies against the signer's address and that message, and
+key recovery returns exactly d·G.  `hne`: the P2PKH addresses of d·G and of the other candidate key differ
+(distinct HASH160s). -/
+theorem sign_verifies (laws : CurveLaws) (sha256 : Bytes → Bytes) (hlen : ∀ b, (sha256 b).length = 32)
+    (magic : Bytes) (addrOf : Nat × Nat → Bool → String)
+    (d : Nat) (hd : 1 ≤ d ∧ d < n) (px py : Nat) (hP : mul G d = some (px, py))
+    (k : Nat) (hk : 1 ≤ k ∧ k < n) (xr yr : Nat) (hR : mul G k = some (xr, yr)) (hxr : xr < n)
+    (msg : Bytes) (compressed : Bool)
+    (r s : Nat) (hrs : (r, s) = ecdsaSigOf d k (ofBE (msgDigest sha256 magic msg)) xr) (hr0 : r ≠ 0) (hs0 : s ≠ 0)
+    (hne : ∀ q : Nat × Nat, q ≠ (px, py) → addrOf q compressed ≠ addrOf (px, py) compressed) :
+    let rs := beBytes 32 r ++ beBytes 32 s
+    let hdr := (if compressed then 31 else 27) + (if yr % 2 = 0 then 0 else 1)
+    let sig := [UInt8.ofNat hdr] ++ rs
+    signMessageHeader sha256 magic addrOf (px, py) compressed rs msg = .ok (some sig) ∧
+    verifyMessage sha256 magic addrOf (addrOf (px, py) compressed) sig msg = .ok true ∧
+    (msg ≠ [] → recoverPub sha256 magic msg sig = .ok (px, py)) := by
+  sorry
+
 end C14
